@@ -2,6 +2,7 @@ package mon
 
 import (
 	"fmt"
+	"math/rand"
 	"strings"
 	"time"
 
@@ -116,3 +117,155 @@ func c15AfterQueries(run *evid.Run, h *hx.History, l *ipfslog.IPFSLog, r int, si
 }
 
 var _ = hx.Short
+
+// ---------------------------------------------------------------- C15: iteration vs writers (child processes)
+
+func init() { registerCases("C15lock", c15LockCase) }
+
+// c15LockCase: (a) every kind of bounded iteration is parked at each of its hook points while a writer (append,
+// merge, identity change) starts on the same log; both must end. (b) a log trimmed by a size-bounded merge is
+// iterated with bounds at its edge (its oldest entry names predecessors the log no longer holds): whatever the
+// iteration returns, a later writer and a later iteration must end. Runs one scenario at a time in a child
+// process, so the deadlock classifier (every library goroutine in a lock wait, twice, no hook event) is exact.
+func c15LockCase(run *evid.Run, i int, j *Journal) {
+	installHook()
+	rng := rand.New(rand.NewSource(run.Seed*6700417 + int64(i)))
+	h := hx.Gen(run.Seed, i, hx.GenOpts{MaxSteps: 24, Orders: []string{"hash"}, MaxReplicas: 3, Shapes: []string{"widefork", "diamond", "mixed", "lopsided"}})
+	x := hx.NewExec(h)
+	for k := range h.Steps {
+		x.Do(k)
+	}
+	l := x.Logs[rng.Intn(len(x.Logs))]
+	for _, c := range x.Logs {
+		if c.Len() > l.Len() {
+			l = c
+		}
+	}
+	if l.Len() < 3 {
+		return
+	}
+	vs := l.Values().Slice()
+	old, mid, nw := vs[0].GetHash(), vs[len(vs)/2].GetHash(), vs[len(vs)-1].GetHash()
+	two := 2
+	kinds := []struct {
+		name string
+		o    *iface.IteratorOptions
+	}{
+		{"default", &iface.IteratorOptions{}},
+		{"LTE", &iface.IteratorOptions{LTE: []cid.Cid{mid}}},
+		{"LTE x2", &iface.IteratorOptions{LTE: []cid.Cid{nw, mid}}},
+		{"LT", &iface.IteratorOptions{LT: []cid.Cid{nw}}},
+		{"GTE+LTE", &iface.IteratorOptions{GTE: old, LTE: []cid.Cid{nw}}},
+		{"GT", &iface.IteratorOptions{GT: old}},
+		{"LTE+amount", &iface.IteratorOptions{LTE: []cid.Cid{nw}, Amount: &two}},
+	}
+	writers := []string{"append", "merge", "set-identity"}
+	other := x.W.NewLog(0)
+	_, _ = other.Append(x.W.Ctx, []byte(fmt.Sprintf("%d.%d/other", h.Seed, h.Idx)), nil)
+	for _, point := range []string{"iterator.locked", "iterator.unlocked"} {
+		k := kinds[(i+len(point))%len(kinds)]
+		wr := writers[(i/len(kinds)+len(point))%len(writers)]
+		label := fmt.Sprintf("iteration %s parked at %s while a writer (%s) starts on the same log of %d entries", k.name, point, wr, l.Len())
+		j.Log(map[string]any{"case": i, "scenario": label})
+		p := newPlan(uint64(run.Seed)+uint64(i), false, map[*ipfslog.IPFSLog]string{l: "L"})
+		p.parkLog, p.parkPoint = l, point
+		activePlan.Store(p)
+		aDone := make(chan struct{})
+		var ierr error
+		out := make(chan iface.IPFSLogEntry, 4*l.Len()+64)
+		go func() { defer close(aDone); ierr = l.Iterator(k.o, out) }()
+		realised := false
+		select {
+		case <-p.parked:
+			realised = true
+		case <-aDone:
+		case <-time.After(10 * time.Second):
+		}
+		bDone := make(chan struct{})
+		if realised {
+			go func() {
+				defer close(bDone)
+				switch wr {
+				case "append":
+					_, _ = l.Append(x.W.Ctx, []byte(fmt.Sprintf("%d.%d/w-%s", h.Seed, h.Idx, point)), nil)
+				case "merge":
+					_, _ = l.Join(other, -1)
+				default:
+					l.SetIdentity(x.W.Idents[0])
+				}
+			}()
+			select {
+			case <-bDone:
+			case <-time.After(25 * time.Millisecond): // only decides WHEN the parked iteration resumes, never a verdict
+			}
+		} else {
+			close(bDone)
+		}
+		close(p.release)
+		all := make(chan struct{})
+		go func() { <-aDone; <-bDone; close(all) }()
+		ok, dead, dump := waitAll(all, p, 60*time.Second)
+		activePlan.Store(nil)
+		run.Count("iterations_parked_while_a_writer_starts", 1)
+		if realised {
+			run.Count("parked_"+point, 1)
+		}
+		if !ok {
+			if dead {
+				m := histSample(h)
+				m["scenario"] = label
+				m["blocked_goroutines"] = dump
+				run.Violate("C15/never-ends", det("iteration", k.name, "point", point, "writer", wr), m, "an iteration never ends (and blocks the log) when a writer starts while it is between taking the log's lock and emitting: %s", label)
+			} else {
+				run.Inconclusive("watchdog fired without a deadlock state: " + label)
+			}
+			return
+		}
+		if ierr != nil {
+			m := histSample(h)
+			m["scenario"] = label
+			run.Violate("C15/unexpected-error", det("iteration", k.name, "phase", "parked"), m, "iteration with bounds the log holds failed: %v (%s)", ierr, label)
+		}
+		run.NonTrivial("parked/" + k.name + "/" + point + "/" + wr)
+	}
+	// (b) bounds at the edge of a trimmed log
+	lo := &ipfslog.LogOptions{ID: l.GetID(), Entries: l.GetEntries(), Heads: l.Heads().Slice(), SortFn: l.SortFn, IO: l.IO()}
+	cp, err := ipfslog.NewLog(l.Storage, l.Identity, lo)
+	if err != nil {
+		return
+	}
+	keep := 1 + rng.Intn(cp.Len()-1)
+	if _, err := cp.Join(x.W.NewLog(0), keep); err != nil {
+		return
+	}
+	tv := cp.Values().Slice()
+	if len(tv) == 0 {
+		return
+	}
+	edge := tv[0].GetHash()
+	label := fmt.Sprintf("log of %d entries trimmed to %d by a size-bounded merge, then iterated with bounds at its oldest entry", l.Len(), keep)
+	j.Log(map[string]any{"case": i, "scenario": label})
+	var pan any
+	okc, dead, dump := guardCall(func() {
+		pan = safely(func() {
+			for _, o := range []*iface.IteratorOptions{{LT: []cid.Cid{edge}}, {LTE: []cid.Cid{edge}}, {GT: edge}, {GTE: edge}, {LT: []cid.Cid{tv[len(tv)-1].GetHash()}, GTE: edge}} {
+				_ = cp.Iterator(o, make(chan iface.IPFSLogEntry, 4*l.Len()+64))
+			}
+			_, _ = cp.Append(x.W.Ctx, []byte("after-edge-queries"), nil)
+			_ = cp.Iterator(&iface.IteratorOptions{}, make(chan iface.IPFSLogEntry, 4*l.Len()+64))
+		})
+	}, 60*time.Second)
+	run.Count("trimmed_logs_iterated_at_their_edge", 1)
+	m := histSample(h)
+	m["scenario"] = label
+	switch {
+	case !okc && dead:
+		m["blocked_goroutines"] = dump
+		run.Violate("C15/log-blocked-after-iteration", det("log", "trimmed by a size-bounded merge"), m, "after iterations with bounds at the oldest entry of a trimmed log a writer on that log blocks forever: %s", label)
+	case !okc:
+		run.Inconclusive("watchdog fired without a deadlock state: " + label)
+	case pan != nil:
+		run.Violate("C15/panic", det("log", "trimmed by a size-bounded merge"), m, "iteration at the edge of a trimmed log panicked: %v", pan)
+	}
+	run.Eval(1)
+}
